@@ -9,6 +9,8 @@ import PdfModel.Drv.C09
      measured record lengths
   → `ok/<tree>/<kid+kid+…>/<pid.res.content,…>/<catalog>/<info|n>/<xpos>/<size>/<aw.bw>/<objs>/<rows>/<len>/<xref data hex>`
     | `err` | `panic`
+  c10.bytelen <n>          → byteLen n  (xref.rs `byte_len`, reached through `write_stream`)
+  c10.table <e,e,…>        → `ok <aw>.<bw> <hex of the rows>` | `err`: `XRefTable::write_stream` of that table
 -/
 
 namespace DrvC10
@@ -45,6 +47,21 @@ def handle (args : List String) : String :=
         s!"ok/{tree}/{natList kids}/{if pages.isEmpty then "-" else joinWith "," pages}/{root}/{infoId}/{i.xpos}/{i.size}/{i.aw}.{i.bw}/{showObjs d.st.objs}/{joinWith "," (i.rows.map DrvC02.showEntry)}/{d.st.len}/{hexOfBytes (data.map UInt8.ofNat)}"
       | o => o.tag
     | _, _, _, _, _, _ => "bad-request"
+  | ["c10.bytelen", n] =>
+    match natOf n with
+    | some n => toString (byteLen n)
+    | none => "bad-request"
+  | ["c10.table", entries] =>
+    -- `XRefTable::write_stream(len)` of the table made of these entries: widths and bytes
+    match (if entries == "-" then some [] else mapM? DrvC02.parseEntry (entries.splitOn ",")) with
+    | some t =>
+      match rowsOf t with
+      | some rows =>
+        let (aw, bw) := widths t
+        let data := rows.flatMap (rowBytes aw bw)
+        s!"ok {aw}.{bw} {hexOfBytes (data.map UInt8.ofNat)}"
+      | none => "err"
+    | none => "bad-request"
   | _ => "bad-request"
 
 end DrvC10
